@@ -30,19 +30,25 @@ def rule_order_laws(ctx):
                "ordered-conditions": [(c, l) for c in (None, 0, 1, 2) for l in levels]}
     for dname, dom in domains.items():
         bad_anti = bad_eq = bad_tr = None
+        f_anti, f_eq, f_tr = set(), set(), set()
         n = 0
         for x, y in itertools.product(dom, repeat=2):
             n += 1
             r, r2 = pcmp(x, y), pcmp(y, x)
-            if REV[r] != r2 and bad_anti is None:
-                bad_anti = (x, y, r, r2)
-            if ((x == y) != (r == "Equal")) and bad_eq is None:
-                bad_eq = (x, y, r)
+            if REV[r] != r2:
+                f_anti.add(min(A.access_pair_class(x, y), A.access_pair_class(y, x)))
+                if bad_anti is None:
+                    bad_anti = (x, y, r, r2)
+            if (x == y) != (r == "Equal"):
+                f_eq.add(min(A.access_pair_class(x, y), A.access_pair_class(y, x)) + "/cmp=%s" % r)
+                if bad_eq is None:
+                    bad_eq = (x, y, r)
         for x, y, z in itertools.product(dom, repeat=3):
             n += 1
             if pcmp(x, y) == "Less" and pcmp(y, z) == "Less" and pcmp(x, z) != "Less":
-                bad_tr = (x, y, z, pcmp(x, z))
-                break
+                f_tr.add(A.shape_class(x, y, z))
+                if bad_tr is None:
+                    bad_tr = (x, y, z, pcmp(x, z))
         ctx.evaluations += n
         val = "access value = (conditions, level)"
         ctx.ob("C31.1", "antisymmetric:%s" % dname, bad_anti is None,
@@ -56,6 +62,12 @@ def rule_order_laws(ctx):
                site=b.loc(), key="C31.1:eq-consistency:%s" % dname)
         ctx.ob("C31.1", "transitive:%s" % dname, bad_tr is None,
                "a=%s < b=%s < c=%s but cmp(a,c)=%s" % (bad_tr or (0, 0, 0, 0)), site=b.loc(), key="C31.1:transitivity:%s" % dname)
+        A.report_new_classes(ctx, "C31", "C31.1", "C31.1:antisymmetry:%s" % dname, f_anti, b.loc(),
+                             "Access::partial_cmp is not antisymmetric")
+        A.report_new_classes(ctx, "C31", "C31.1", "C31.1:eq-consistency:%s" % dname, f_eq, b.loc(),
+                             "Access::partial_cmp disagrees with ==")
+        A.report_new_classes(ctx, "C31", "C31.1", "C31.1:transitivity:%s" % dname, f_tr, b.loc(),
+                             "Access `<` is not transitive")
         ctx.sample({"domain": dname, "values": len(dom), "cases": n})
     return pcmp
 
@@ -74,15 +86,19 @@ def rule_fold_steps(ctx, pcmp):
                             ("ordered-conditions", [(c, l) for c in (None, 0, 1, 2) for l in (0, 1, 2, 3)])):
         states = A.member_domain(accesses, counters=(0, 1))
         bad = None
+        f_fold = set()
         for x, y in itertools.product(states, repeat=2):
             if M(x, y) != M(y, x):
-                bad = (x, y, M(x, y), M(y, x))
-                break
+                f_fold.add(min(A.access_pair_class(x[2], y[2]), A.access_pair_class(y[2], x[2])))
+                if bad is None:
+                    bad = (x, y, M(x, y), M(y, x))
         ctx.ob("C31.2", "fold over hash-ordered heads is order-insensitive:%s" % dname, bad is None,
                "merge_states iterates a HashSet of heads and folds with state::merge, whose step is not commutative for "
                "%s (x=%s y=%s -> %s vs %s): the merged state depends on the iteration order, so repeated queries / "
                "different replicas can report different access" % ((dname,) + (bad or (0, 0, 0, 0))), site=ms.loc(),
                key="C31.2:fold-order:%s" % dname)
+        A.report_new_classes(ctx, "C31", "C31.2", "C31.2:fold-order:%s" % dname, f_fold, ms.loc(),
+                             "the fold step of merge_states is not commutative")
 
 
 def rule_arbitrary_pick(ctx):
